@@ -210,6 +210,17 @@ Proof.
 Qed.
 Print Assumptions C04_block_radius_codecs12.
 
+(* the same statement under the name that says what it covers since fix 90b3a68: every codec *)
+Theorem C04_block_radius_all_codecs : forall (algo : N) (mb : nat) hash
+    (inner : nat -> list byte -> list nat -> option (list byte * list byte)) (o : option byte) fast b,
+  mb <= 255 -> bk b <= mb -> length (msg b) <= bk b -> length (ecc b) <= mb - bk b ->
+  (forall k r E mr er_, inner k r E = Some (mr, er_) -> length mr = k /\ length er_ <= mb - k) ->
+  let dec := fun k (o : option byte) m p => fac_decode12 (inner k) mb k 0 o m p in
+  let c := fst (block_step (option byte) hash (pchk algo mb) dec o fast b) in
+  c = msg b \/ hash c = hsh b \/ pcap mb (bk b) o (msg b, ecc b) (c, penc algo mb (bk b) c).
+Proof. exact C04_block_radius_codecs12. Qed.
+Print Assumptions C04_block_radius_all_codecs.
+
 (* ------------------------------------------------------------------ *)
 (* C04 at TOOL level (Proofs/C04Inst.v), for an ARBITRARY ecc file — any byte string: markers, fields, tracks overwritten,
    truncated, extended — an arbitrary tree, ANY decoder and any parameters.  The run is Stream's entry loop with the
